@@ -390,4 +390,23 @@ def tableChunk (k : Nat) : List Nat :=
 /-- The whole table (7 sequences × 2 × 6 actions = 84 chunks), the shape Gen/C11 prints. -/
 def modelTable : List (List Nat) := (List.range 84).map tableChunk
 
+/-- Gate table: every sanity / reserved-member check on its own, on an otherwise healthy handle
+    (same cases, in the same order, as harness/gen_c11.c). Cell = returned ret * 2 + (inner called). -/
+def gateCell (k : Nat) : Nat :=
+  let i : Internal := { hasCode := k != 13, sequence := .run, availIn := if k = 10 then 0 else 5,
+                        supported := if 14 ≤ k ∧ k ≤ 18 then 31 - 2 ^ (k - 14) else 31, allowBufError := false }
+  let r : Reserved := match k with
+    | 0 => { ptr1 := 1 } | 1 => { ptr2 := 1 } | 2 => { ptr3 := 1 } | 3 => { ptr4 := 1 }
+    | 4 => { int2 := 1 } | 5 => { int3 := 1 } | 6 => { int4 := 1 } | 7 => { enum1 := 1 } | 8 => { enum2 := 1 }
+    | _ => {}
+  let strm : Stream := { nextIn := if k = 9 ∨ k = 10 then none else some 1000, availIn := if k = 10 then 0 else 5,
+                         totalIn := 40, nextOut := if k = 11 ∨ k = 12 then none else some 2000,
+                         availOut := if k = 12 then 0 else 7, totalOut := 50, reserved := r,
+                         internal := if k = 19 then none else some i }
+  let action := if 14 ≤ k ∧ k ≤ 18 then k - 14 else LZMA_RUN
+  let res := lzmaCode (fun a => ⟨min 1 a.inSize, min 1 a.outSize, LZMA_OK⟩) strm action
+  res.ret * 2 + (if res.called.isSome then 1 else 0)
+
+def modelGateTable : List Nat := (List.range 20).map gateCell
+
 end XzVerif.LzmaCode
